@@ -578,8 +578,9 @@ class SecopClient(ProxyClient):
                     entry[1].set()  # release callers of requests not yet transmitted
         except Exception:
             pass
-        if self.io:
-            self.io.shutdown()
+        io = self.io  # an other thread disconnecting at the same time may reset self.io
+        if io:
+            io.shutdown()
         # the threads reset these attributes themselves when they end
         txthread = self._txthread
         if txthread:
@@ -590,8 +591,9 @@ class SecopClient(ProxyClient):
         if rxthread:
             rxthread.join()
             self._rxthread = None
-        if self.io:
-            self.io.disconnect()
+        io = self.io
+        if io:
+            io.disconnect()
         self.io = None
         # abort pending requests early
         try:  # avoid race condition
